@@ -170,7 +170,29 @@ def run(ctx):
     streams["fixed"] = fixed
     streams["keyword_line_brace"] = keyword_line_brace(rng, ctx.scale(1500, 60000))
     streams["string_boundaries"] = string_boundary_texts()
-    ctx.rule = ("texts from 12 streams (corpus/C01 crash inputs first; string literals over a boundary alphabet of "
+    # well-formed programs with NON-ASCII WHITESPACE (U+00A0, U+3000, U+2003, U+2028, U+FEFF) or other multi-byte
+    # characters inserted at, or replacing the blank at, one token boundary: after `:`, `(`, `,`, `=`, `{`, before
+    # `)`, between words (seeded C01-2: the formatter's type-annotation spacing sliced one BYTE after a colon)
+    wide = ["\u00a0", "\u3000", "\u2003", "\u2028", "\ufeff", "\u00e9", "\U0001f600"]
+    base = [t for t in seeds if 0 < len(t) < 1500] + gen_progs
+    nb = []
+    import re as _re
+    for _ in range(ctx.scale(600, 20000)):
+        t = rng.choice(base)
+        spots = [m.end() for m in _re.finditer(r"[:(,={\[]|\b(let|fun|in|if|return)\b", t)] + \
+                [m.start() for m in _re.finditer(r"[)}\]]| ", t)]
+        if not spots:
+            continue
+        k2 = rng.choice(spots)
+        w = rng.choice(wide) * rng.choice([1, 1, 2])
+        if rng.random() < 0.5 and t[k2:k2 + 1] == " ":
+            nb.append(t[:k2] + w + t[k2 + 1:])
+        else:
+            nb.append(t[:k2] + w + t[k2:])
+    nb += ["fun f(x:\u00a0Int) { x }", "fun f(x:\u3000Int):\u00a0Int { x }", "let x:\u2003(Int, Int) = (1, 2)",
+           "struct S { a:\u00a0Int }", "fun f(g:\u00a0Fun<(Int),\u00a0Int>) { g(1) }"]
+    streams["wide_at_boundaries"] = nb
+    ctx.rule = ("texts from 13 streams (non-ASCII whitespace / multi-byte characters inserted at token boundaries of well-formed programs; corpus/C01 crash inputs first; string literals over a boundary alphabet of "
                 "values (trailing backslashes, escaped quotes at the end, quote/backslash mixes, escapes, braces, "
                 "non-ASCII; closed and unclosed, in 16 contexts); keywords and names at the start of a line glued "
                 "to `{` in 9 contexts x 7 bodies + random token sequences with '', ' ' and newline separators; "
